@@ -167,20 +167,17 @@ def handleItems (j : Json) : Except String Json := do
   | .error e =>
     if e.startsWith "E:" then pure (Json.mkObj [("construct", Json.str (e.drop 2).toString)]) else throw e
   | .ok items =>
-    match (none : Option Err) with
-    | some e => pure (Json.mkObj [("orig", jList jItem items), ("fmt", jErr (errTag e))])
-    | none =>
-      let toks := (items.map layoutItem).flatMap toksItem
-      let parsed := parseFile toks
-      pure (Json.mkObj [
-        ("orig", jList jItem items),
-        ("toks", jList jTok toks),
-        ("parsed", jParse parsed (jList jItemRaw)),
-        ("toks2", jParse parsed (fun its =>
-          jList jTok ((its.map layoutItem).flatMap toksItem))),
-        ("expand", jList (itemExpand jDoc) items),
-        ("expand2", jParse parsed (jList (itemExpand jRawDoc))),
-        ("flags", jList itemFlags items)])
+    let toks := (items.map layoutItem).flatMap toksItem
+    let parsed := parseFile toks
+    pure (Json.mkObj [
+      ("orig", jList jItem items),
+      ("toks", jList jTok toks),
+      ("parsed", jParse parsed (jList jItemRaw)),
+      ("toks2", jParse parsed (fun its =>
+        jList jTok ((its.map layoutItem).flatMap toksItem))),
+      ("expand", jList (itemExpand jDoc) items),
+      ("expand2", jParse parsed (jList (itemExpand jRawDoc))),
+      ("flags", jList itemFlags items)])
 
 def ofTok (j : Json) : Except String Tok := do
   match (← j.getArr?).toList with
